@@ -139,9 +139,26 @@ def hasAlias (ks : List (List Str)) : Bool :=
   | [] => false
   | k :: r => r.contains k || hasAlias r
 
+/-- `C10 dup <a> <b> <same>`: a shared identifier inside one glyph (any two object kinds) or between the two
+    fontinfo guidelines must be refused, every time; a fontinfo guideline and a glyph guideline are different
+    scopes.  The outcome class must be the same in every load and, when ok, the fonts and their saves equal. -/
+def runDup (a b same : String) (obs : List String) : Verdict :=
+  let refused := same == "1" && !(a == "F" && b != "F") && !(a != "F" && b == "F")
+  let expected := if refused then "err" else "ok"
+  let cls := obs.head?.getD "?"
+  let d := field "d=" obs
+  let t := field "t=" obs
+  let spec : List String :=
+    (if d == some "1" then [] else ["load-nondeterministic:outcome-of-refused-tree"]) ++
+    (if cls == "ok" && t != some "1" then ["save-nondeterministic"] else []) ++
+    (if cls != "ok" && cls != "err" then ["panic-or-unknown"] else [])
+  { agree := cls == expected, spec := spec,
+    tags := ["dup", "dup-" ++ a ++ b, if refused then "refused-tree" else "accepted-tree", "nt"], model := expected }
+
 def run (inp obs : List String) : Verdict :=
   match inp with
   | [_, "lib", t1, t2] => runLib t1 t2 obs
+  | [_, "dup", a, b, same] => runDup a b same obs
   | [_, "det", fmtTok, gTok, kTok, lTok, fTok, oTok, bTok, xTok, eTok] =>
     match fmtTok.toNat?, parseGroups gTok, parseKerning kTok, parseSet "L:" lTok,
           parseOptStr "F" fTok, parseOrder oTok, parseBlocks bTok with
